@@ -172,6 +172,15 @@ def _own_msg(ctx, d, pgpy):
         enc = enc.encrypt('pw', sessionkey=None)   # independent session key would break the message; PGPy requires the same one
     own_blob(ctx, pgpy, bytes(k.pubkey.encrypt(msg)), {'own': 'encrypted message'})
     own_blob(ctx, pgpy, bytes(msg.encrypt('pw2', cipher=SymmetricKeyAlgorithm.CAST5)), {'own': 'passphrase message'})
+    if d['i'] < 4:
+        # nested packets that compress extremely well (ratio far beyond DEFLATE's maximum): each algorithm once
+        big, _ = encwork.make_message({'body': 'zeros1m', 'comp': encwork.COMPRESSIONS[d['i'] % 4]}, r)
+        own_blob(ctx, pgpy, bytes(big), {'own': 'message of a million zero octets', 'comp': encwork.COMPRESSIONS[d['i'] % 4]})
+        back = pgpy.PGPMessage.from_blob(bytes(big))
+        ctx.count('highly_compressible_messages')
+        if bytes(back._message._contents) != b'\x00' * 1000000 or bytes(back) != bytes(big):
+            ctx.fail('own-packet-reserialises-differently', {'where': {'own': 'message of a million zero octets', 'comp': encwork.COMPRESSIONS[d['i'] % 4]},
+                                                            'contents_len': len(back._message._contents), 'lens': [len(bytes(big)), len(bytes(back))]})
     ct = pgpy.PGPMessage.new('clear\n- text', cleartext=True)
     ct |= sigwork.signer_key('ed25519_0').sign(ct)
     own_blob(ctx, pgpy, bytes(ct), {'own': 'cleartext signatures'})
